@@ -3,6 +3,13 @@
 import json, sys
 
 CLAIMED = {
+ "C15": dict(
+   category="model_checking",
+   text="(a) Differential: 50 (quick) / 100 (thorough) scripted histories - rollout with objects becoming ready, probe regression and recovery, stale observedGeneration, pause + third-party deletion + unpause, drift, archive, delete with and without failing probes, a foreign object occupying a name (collision), adoption from a previous revision - are run on the all-local ObjectSet and on the same ObjectSet with each subset of its 2-3 phases delegated to the real same-cluster ObjectSetPhase controller; after every step both worlds run fairly to quiescence and the projections (objects: spec, revision, controlled by the ObjectSet directly or through its phase objects, terminating; ObjectSet: lifecycle, condition type/status, controllerOf) must be equal. (b) Explicit-state BFS to closure over delegated layouts with reconciles of ObjectSet and ObjectSetPhases in any order, workload status changes, pause/unpause, deletion with foreign finalizers, GC: a structural monitor demands after every completed ObjectSet pass exactly the expected ObjectSetPhase objects carrying the phase's objects, probes, revision, previous list, paused state and class; the C03 gating monitor (Available trusted only for the phase object's current generation), the C04 teardown monitor (phase object deleted and confirmed gone before earlier phases are touched) and the C06 status monitors run on the same transitions.",
+   design_ref="DESIGN.md §7 C15",
+   note="Trusted: kmodel; native owner strategy (annotation strategy in C01/C05); the differential compares quiescent points of scripted fair histories.",
+   technique="differential replay (local vs delegated) on the real controllers + explicit-state BFS with structural and behavioural trace monitors",
+   engine="world"),
  "C10": dict(
    category="fault_enumeration",
    text="Fault enumeration on 8 scenarios (single ObjectSet local / with delegated phase; ObjectDeployment T1{a,b} -> T2{a,c} with handover and archival, also with a delegated phase; teardown of a rolled-out ObjectSet; hand-made chain of three revisions; ObjectTemplate with a source; Package v1 -> v2 through Package, ObjectDeployment and ObjectSet controllers with sliced phases). Per scenario the reference run under a fair schedule (rounds of all reconciles of the real controllers in canonical order, workloads becoming ready, garbage collector) to quiescence yields the projected end state E*. Then for EVERY API request of EVERY pass of the reference run x {error before effect, effect with lost response, process crash + restart with an empty dynamic cache}, and for every third-party drift {delete, modify spec, drop cache label, lower the revision annotation} x managed object x round (3 128 disturbed runs quick; thorough adds pairs of faults): inject, continue fairly, and require quiescence within 50 rounds, projection == E* (managed objects' spec / owners / revision / labels, lifecycle and condition type/status/reason of the PKO objects with ObjectSet names replaced by revision rank) and one further round with zero state-changing requests (no two controllers keep overwriting each other).",
